@@ -24,6 +24,7 @@ PROP_MODULES = {
     "C04": ["contracts.c04"],
     "C11": ["contracts.c11"],
     "C12": ["contracts.c12"],
+    "C09": ["contracts.c09"],
 }
 
 
